@@ -30,7 +30,8 @@ ASSUMPTIONS = [
     "library's answers for all texts",
     'comparisons of native Python operands are not asserted (the repository '
     'tests pin Python semantics for OP_EQ(True, 1))',
-    'blank: only the stated equalities (=0, ="", =FALSE, =blank)',
+    'blank: equal to 0, "", FALSE and blank and to nothing else (= and <> '
+    'only; the ordering of a blank is not asserted)',
 ]
 
 OPS = [('OP_LT', '<'), ('OP_EQ', '='), ('OP_GT', '>'), ('OP_LE', '<='),
@@ -284,12 +285,17 @@ def judge(case):
         listed = (o[0] == 'z' or (o[0] == 'n' and o[1] == 0)
                   or (o[0] == 's' and o[1] == '')
                   or (o[0] == 'b' and o[1] is False))
-        res.nontrivial = listed
-        if listed:
-            for name, r in (('fwd', fwd), ('rev', rev)):
-                if r['='] != ('B', True):
-                    res.fail('blank-equality:%s:%s' % (mode, ty),
-                             ('B', True), r['='], name)
+        res.nontrivial = True
+        # a blank is 0, "" and FALSE - and nothing else: against any other
+        # value "=" answers FALSE (and "<>" the opposite of "=")
+        for name, r in (('fwd', fwd), ('rev', rev)):
+            if r['='] != ('B', listed):
+                res.fail('blank-%s:%s:%s' % (
+                    'equality' if listed else 'equals-unlisted-value',
+                    mode, ty), ('B', listed), r['='], name)
+            elif r['<>'] != ('B', not listed):
+                res.fail('blank-ne-inconsistent:%s:%s' % (mode, ty),
+                         ('B', not listed), r['<>'], name)
         for r in (fwd, rev):
             for sym, t in r.items():
                 if t[0] == 'X':
